@@ -26,12 +26,16 @@ import gevent
 from gevent import Timeout
 from gevent import socket as gsocket
 from gevent import ssl as gssl
-from gevent.event import Event
+from gevent.event import Event, AsyncResult
 
+import pycares
+import slimta.relay.pool as _rpool
 from slimta.envelope import Envelope
 from slimta.relay import RelayError
 from slimta.relay.http import HttpRelay
 from slimta.relay.smtp.static import StaticSmtpRelay, StaticLmtpRelay
+from slimta.relay.smtp.mx import MxSmtpRelay
+from slimta.util.dns import DNSResolver
 from slimta.smtp.reply import Reply
 from slimta.util.deque import BlockingDeque
 
@@ -56,12 +60,13 @@ def U(*key):
 class CountingDeque(BlockingDeque):
     """Pass-through BlockingDeque that tells the lab who holds which request."""
 
-    def __init__(self, lab):
+    def __init__(self, lab, owner=None):
         super(CountingDeque, self).__init__()
         self.lab = lab
+        self.owner = owner          # the RelayPool this deque belongs to
 
     def append(self, item):
-        self.lab.on_enqueue(item)
+        self.lab.on_enqueue(item, self.owner)
         return super(CountingDeque, self).append(item)
 
     def appendleft(self, item):
@@ -74,7 +79,7 @@ class CountingDeque(BlockingDeque):
         try:
             item = super(CountingDeque, self).popleft()
         except Timeout:
-            self.lab.on_poll_timeout(g)
+            self.lab.on_poll_timeout(g, self.owner)
             raise
         self.lab.on_pop(item, g)
         return item
@@ -108,6 +113,81 @@ def _observed(base):
 ObsSmtp = _observed(StaticSmtpRelay)
 ObsLmtp = _observed(StaticLmtpRelay)
 ObsHttp = _observed(HttpRelay)
+
+
+class CountingResult(AsyncResult):
+    """Pass-through AsyncResult (what RelayPool.attempt() creates) that remembers every time the slot is
+    written: a result slot belongs to one attempt and is written once."""
+
+    def __init__(self):
+        super(CountingResult, self).__init__()
+        self.sets = []
+
+    def set(self, value=None):
+        self.sets.append('value')
+        return super(CountingResult, self).set(value)
+
+    def set_exception(self, exception, exc_info=None):
+        self.sets.append('exception')
+        return super(CountingResult, self).set_exception(exception, exc_info)
+
+
+_rpool.AsyncResult = CountingResult      # observation only; attempt() looks the name up at call time
+
+
+# ---------------------------------------------------------------------------- MX relay: stub resolver
+Rec = collections.namedtuple('Rec', 'host priority ttl')
+
+
+class StubChannel(object):
+    """pycares-channel-like (the documented DNSResolver.channel hook): answers from the current lab's
+    table, asynchronously, optionally after a short delay (callers overtaking each other in DNS)."""
+
+    lab = None
+
+    def query(self, name, query_type, callback):
+        t = {pycares.QUERY_TYPE_MX: 'MX', pycares.QUERY_TYPE_A: 'A'}.get(query_type, str(query_type))
+        lab = self.lab
+        ans, delay = lab.dns_answer(name, t) if lab is not None else (pycares.errno.ARES_ENOTFOUND, 0)
+        if delay:
+            gevent.spawn_later(delay, self._answer, ans, callback)
+        else:
+            gevent.get_hub().loop.run_callback(self._answer, ans, callback)
+
+    @staticmethod
+    def _answer(ans, callback):
+        if isinstance(ans, int):
+            callback(None, ans)
+        else:
+            callback(list(ans), None)
+
+    def getsock(self):
+        return [], []
+
+    def timeout(self, t=None):
+        return None
+
+    def process_fd(self, r, w):
+        pass
+
+    def cancel(self):
+        pass
+
+
+_STUB = StubChannel()
+
+
+class LabMx(MxSmtpRelay):
+    """The real MxSmtpRelay; new_static_relay() is the documented override point "to provide extra
+    arguments, such as limiting the number of concurrent connections"."""
+
+    _lab = None
+
+    def new_static_relay(self, destination, port):
+        lab = self._lab
+        r = ObsSmtp(destination, port=port, pool_size=lab.pool_size, **self._client_kwargs)
+        lab.adopt(r, (destination, port))
+        return r
 
 
 class SockProxy(object):
@@ -214,7 +294,7 @@ class HttpDown(object):
         ours, theirs = gsocket.socketpair()
         c = HttpConn(len(self.conns))
         self.conns.append(c)
-        self.lab.conn_opened(c.n)
+        self.lab.conn_opened(c.n, None, gevent.getcurrent())
         self.greenlets.append(gevent.spawn(self.handle, theirs, c, a))
         return SockProxy(ours, lambda: self.lab.conn_closed(c.n, 'client'))
 
@@ -304,14 +384,112 @@ class Caller(object):
         self.rcpts = rcpts
         self.env = None
         self.request = None       # the (AsyncResult, envelope) tuple once attempt() queued it
+        self.pool = None          # the RelayPool whose queue took the request
         self.done = False
         self.result = None
         self.error = None
         self.crash = None
         self.greenlet = None
+        self.attempts = 0
+        self.entered = False      # its greenlet has begun to run
+        self.bad_envelope = False
+        self.give_up = None       # None | ('kill',) | ('timeout', seconds): a caller that stops waiting
+        self.gave_up = False
+
+
+class BadEnvelope(Envelope):
+    """an envelope the client cannot serialise: an unexpected exception inside the pool client"""
+    _marker = '?'
+
+    def flatten(self):
+        raise RuntimeError('flatten failed for [%s]' % self._marker)
+
+
+def deque_ops(case):
+    """Direct workload for the anchored mechanism 'semaphore count equals deque length': seeded sequences of every
+    public mutator of BlockingDeque with blocking poppers.  Returns (breaks, stats); judged in the check."""
+    rnd = random.Random('dq-%r' % (case['seed'],))
+    q = BlockingDeque()
+    inserted, taken, discarded = [], [], []
+    waiting = [0]
+    breaks = []
+    stats = collections.Counter()
+
+    def popper(side):
+        waiting[0] += 1
+        try:
+            taken.append(q.popleft() if side == 'l' else q.pop())
+        finally:
+            waiting[0] -= 1
+
+    def new():
+        inserted.append(len(inserted))
+        return inserted[-1]
+    greenlets = []
+    for step in range(case['nops']):
+        op = rnd.choice(['append', 'append', 'appendleft', 'extend', 'extendleft', 'popper-l', 'popper-l', 'popper-r',
+                         'remove', 'remove-absent', 'clear'])
+        stats['op:' + op] += 1
+        if op == 'append':
+            q.append(new())
+        elif op == 'appendleft':
+            q.appendleft(new())
+        elif op == 'extend':
+            q.extend([new() for _ in range(rnd.randint(0, 3))])
+        elif op == 'extendleft':
+            q.extendleft([new() for _ in range(rnd.randint(0, 3))])
+        elif op.startswith('popper'):
+            if waiting[0]:
+                stats['popper-blocked-behind-another'] += 1
+            greenlets.append(gevent.spawn(popper, op[-1]))
+        elif op == 'remove':
+            if len(q):
+                x = rnd.choice(list(q))
+                q.remove(x)
+                discarded.append(x)
+            else:
+                stats['op:remove-on-empty'] += 1
+                op = 'remove-absent'
+        if op == 'remove-absent':
+            try:
+                q.remove(-1)
+                breaks.append({'op': op, 'what': 'remove() of an absent item did not raise ValueError'})
+            except ValueError:
+                pass
+        elif op == 'clear':
+            discarded.extend(q)
+            q.clear()
+        if q.sema.counter != len(q):
+            breaks.append({'op': op, 'step': step, 'what': 'counter != len', 'counter': q.sema.counter,
+                           'len': len(q), 'poppers_waiting': waiting[0]})
+        if rnd.random() < 0.7:
+            gevent.idle()
+            gevent.idle()
+            if waiting[0] and not len(q):
+                stats['popper-waiting-on-empty-deque'] += 1
+            if q.sema.counter != len(q):
+                breaks.append({'op': op, 'step': step, 'what': 'counter != len', 'counter': q.sema.counter,
+                               'len': len(q), 'poppers_waiting': waiting[0]})
+            if waiting[0] and len(q):
+                breaks.append({'op': op, 'step': step, 'what': 'popper still blocked although items are queued',
+                               'len': len(q), 'poppers_waiting': waiting[0], 'counter': q.sema.counter})
+            stats['checks'] += 1
+    gevent.idle()
+    gevent.idle()
+    if q.sema.counter != len(q):
+        breaks.append({'op': 'final', 'what': 'counter != len', 'counter': q.sema.counter, 'len': len(q)})
+    if sorted(taken + discarded + list(q)) != inserted:
+        breaks.append({'op': 'final', 'what': 'items lost or duplicated', 'inserted': len(inserted),
+                       'taken': len(taken), 'discarded': len(discarded), 'left': len(q)})
+    for g in greenlets:
+        if not g.dead:
+            g.kill(block=False)
+    gevent.sleep(0)
+    return breaks, stats
 
 
 GATE_P = {'connect': 0.35, 'quit': 0.45, 'eod0': 0.2, 'idle': 0.4, 'banner': 0.15, 'mail': 0.1, 'request': 0.4}
+GIVE_UP_AFTER = [0.0, 0.001, 0.004, 0.012, 0.03]
 
 
 class PoolLab(object):
@@ -325,6 +503,8 @@ class PoolLab(object):
         self.ncallers = case['ncallers']
         self.mix = set(case['mix'])
         self.cmd_timeout = case.get('cmd_timeout') or CMD_TIMEOUT
+        self.p_giveup = case.get('giveup') or 0.0
+        self.kill_after = case.get('kill_after')
         self.rnd = random.Random('lab-%r' % (self.seed,))
         self.events = []
         self.held = []                 # [(label, Event)] gates currently holding something
@@ -332,8 +512,13 @@ class PoolLab(object):
         self.faulted = {}              # key -> fault kind (distinct decisions actually applied)
         self.faults_on = True
         self.open = set()
+        self.open_by_dest = collections.defaultdict(set)
+        self.conn_dest = {}
+        self.conn_owner = {}           # connection -> the greenlet that called socket_creator
         self.max_open = 0
+        self.max_open_dest = None
         self.bound_witness = None
+        self.pools = []                # every RelayPool of the run (one; MX relay: one per destination)
         self.clients = []              # (client greenlet, origin)
         self.origin = {}
         self.holder = {}               # id(request tuple[0]) -> greenlet that popped it
@@ -345,6 +530,9 @@ class PoolLab(object):
         self.late_keys = set()         # (conn, txn) with a reply scripted later than command_timeout
         self.crashes = []              # exceptions that killed greenlets (hub.print_exception)
         self.invariant_breaks = []
+        self.kill = None               # state of the relay.kill() call of the 'kill' stratum
+        self.dns_queries = collections.Counter()
+        self.pool_domains = collections.defaultdict(set)
         self.http = None
         self.ds = None
         if self.mode == 'http':
@@ -352,31 +540,110 @@ class PoolLab(object):
             kw = {'timeout': case.get('http_timeout')}
             self.relay = ObsHttp(self.http.url, pool_size=self.pool_size, idle_timeout=self.idle,
                                  ehlo_as='poollab', **kw)
+            self.adopt(self.relay, None)
+        elif self.mode == 'mx':
+            self.ds = LabDownstream(self, lmtp=False, pipelining=case.get('pipelining', True))
+            _STUB.lab = self
+            DNSResolver.channel = _STUB
+            DNSResolver._channel = _STUB
+            self.relay = LabMx(context=_CTX, socket_creator=self.creator, ehlo_as='poollab',
+                               idle_timeout=self.idle, connect_timeout=CMD_TIMEOUT,
+                               command_timeout=self.cmd_timeout)
+            self.relay._lab = self
+            self._mx_tables()
         else:
             self.ds = LabDownstream(self, lmtp=(self.mode == 'lmtp'), pipelining=case.get('pipelining', True))
             cls = ObsLmtp if self.mode == 'lmtp' else ObsSmtp
             self.relay = cls('downstream.test', 25, pool_size=self.pool_size, context=_CTX,
                              socket_creator=self.creator, ehlo_as='poollab', idle_timeout=self.idle,
                              connect_timeout=CMD_TIMEOUT, command_timeout=self.cmd_timeout)
-        self.relay._lab = self
-        assert len(self.relay.queue) == 0 and not self.relay.pool
-        self.relay.queue = CountingDeque(self)
+            self.adopt(self.relay, None)
+
+    def adopt(self, pool, dest):
+        """install the observers on a RelayPool (MX relay: called from new_static_relay)."""
+        pool._lab = self
+        pool._dest = dest
+        assert len(pool.queue) == 0 and not pool.pool
+        pool.queue = CountingDeque(self, pool)
+        self.pools.append(pool)
+        if dest is not None:
+            self.cnt['mx:pool-created'] += 1
+            self.ev('pool', dest[0], dest[1])
+
+    # ------------------------------------------------------------------ MX relay: domains, hosts, resolver
+    def _mx_tables(self):
+        s, case = self.seed, self.case
+        nd, nh = case.get('ndomains', 3), case.get('nhosts', 2)
+        self.hosts = ['mx%d.hop.test' % h for h in range(nh)]
+        self.domains = ['dom%d.test' % k for k in range(nd)]
+        self.mx = {}
+        for k, dom in enumerate(self.domains):
+            u = U(s, 'domkind', k)
+            if u < case.get('forced', 0.2):
+                host = self.hosts[int(U(s, 'fh', k) * nh)]
+                port = 25 if U(s, 'fp', k) < 0.6 else 2525
+                self.relay.force_mx(dom.upper() if U(s, 'fu', k) < 0.5 else dom, host, port)
+                self.mx[dom] = ('forced', host, port)
+            elif u < case.get('forced', 0.2) + 0.12:
+                self.mx[dom] = ('a-only',)
+            elif 'dnsfail' in self.mix and u > 0.93:
+                self.mx[dom] = ('fail',)
+            else:
+                nrec = 1 + int(U(s, 'nrec', k) * min(3, nh))
+                self.mx[dom] = ('mx', [int(U(s, 'mxh', k, j) * nh) for j in range(nrec)])
+
+    def dns_answer(self, name, t):
+        name = name.lower()
+        q = self.dns_queries[(name, t)]
+        self.dns_queries[(name, t)] += 1
+        self.cnt['mx:dns-query'] += 1
+        if q:
+            self.cnt['mx:dns-requery-after-expiry'] += 1
+        delay = [0, 0, 0.002, 0.006][int(U(self.seed, 'dnsd', name, t, q) * 4)]
+        kind = self.mx.get(name, ('fail',))
+        rotate = self.case.get('rotate')
+        ttl = 0 if rotate else 300
+        if kind[0] == 'mx' and t == 'MX':
+            nh = len(self.hosts)
+            shift = q if rotate else 0
+            return [Rec(self.hosts[(h + shift) % nh], 10 * (j + 1), ttl) for j, h in enumerate(kind[1])], delay
+        if kind[0] == 'a-only':
+            if t == 'MX':
+                return pycares.errno.ARES_ENODATA, delay
+            return [Rec(name, 0, ttl)], delay
+        if kind[0] == 'fail':
+            return pycares.errno.ARES_ESERVFAIL, delay
+        return pycares.errno.ARES_ENOTFOUND, delay
 
     # ------------------------------------------------------------------ recording
     def ev(self, *e):
         self.events.append(e)
 
-    def on_enqueue(self, item):
+    def shared_destinations(self):
+        """pools (destinations) that served the recipients' domains of more than one domain"""
+        return sum(1 for d in self.pool_domains.values() if len(d) > 1)
+
+    def queued_total(self):
+        return sum(len(p.queue) for p in self.pools)
+
+    def on_enqueue(self, item, owner):
         c = self.by_env.get(id(item[1]))
         if c is not None:
             c.request = item
-        pool = self.relay.pool
+            c.pool = owner
+            self.pool_domains[id(owner)].add(c.rcpts[0].split('@')[1])
+        pool = owner.pool
         if any(cl.dead for cl in pool):
             self.cnt['race:enqueue-while-finished-client-still-in-pool'] += 1
-        if any(getattr(cl, 'idle', False) for cl in pool) and len(self.relay.queue):
+        if any(getattr(cl, 'idle', False) for cl in pool) and len(owner.queue):
             self.cnt['race:enqueue-behind-request-an-idle-client-has-not-taken-yet'] += 1
         if pool and not any(getattr(cl, 'idle', False) or cl.dead for cl in pool):
             self.cnt['race:enqueue-while-every-client-busy-or-exiting'] += 1
+        if self.kill is not None:
+            self.cnt['kill:attempt-arrived-after-kill'] += 1
+        if owner._dest is not None and len(self.pools) > 1 and \
+                any(p is not owner and (p.pool or len(p.queue)) for p in self.pools):
+            self.cnt['mx:enqueue-while-another-destination-active'] += 1
 
     def on_poll(self, g):
         if self.pops[g]:
@@ -390,9 +657,12 @@ class PoolLab(object):
     def on_pop(self, item, g):
         self.holder[id(item[0])] = g
         self.pops[g] += 1
+        c = self.by_env.get(id(item[1]))
+        if c is not None and c.gave_up:
+            self.cnt['giveup:abandoned-request-taken-by-a-client-later'] += 1
 
-    def on_poll_timeout(self, g):
-        if len(self.relay.queue):
+    def on_poll_timeout(self, g, owner):
+        if len(owner.queue):
             # a caller saw this client idle, queued its request, and the client leaves without it
             self.cnt['race:idle-expiry-with-request-queued'] += 1
         if self.pops[g]:
@@ -407,38 +677,53 @@ class PoolLab(object):
         if origin == 'remove_client':
             self.cnt['respawn'] += 1
             self.ev('respawn',)
+            if self.kill is not None:
+                self.cnt['kill:respawn-for-queued-work-after-kill'] += 1
 
     def on_client_removed(self, client):
         pass
 
-    def conn_opened(self, n):
+    def conn_opened(self, n, dest=None, owner=None):
         self.open.add(n)
+        self.conn_dest[n] = dest
+        self.conn_owner[n] = owner
+        mine = self.open_by_dest[dest]
+        mine.add(n)
         self.ev('open', n)
-        if len(self.open) > self.max_open:
-            self.max_open = len(self.open)
+        if dest is not None and len(self.open) > len(mine):
+            self.cnt['mx:connections-to-several-destinations-open-at-once'] += 1
+        if len(mine) > self.max_open:
+            self.max_open = len(mine)
+            self.max_open_dest = dest
             if self.pool_size and self.max_open > self.pool_size and self.bound_witness is None:
+                pools = [p for p in self.pools if p._dest == dest]
                 self.bound_witness = {
-                    'open_connections': sorted(self.open), 'pool_size': self.pool_size,
-                    'pool_len': len(self.relay.pool),
-                    'client_origins': [self.origin.get(c) for c in self.relay.pool],
+                    'open_connections': sorted(mine), 'pool_size': self.pool_size, 'destination': dest,
+                    'pools_for_this_destination': len(pools),
+                    'pool_len': [len(p.pool) for p in pools],
+                    'client_origins': [self.origin.get(c) for p in pools for c in p.pool],
                     'last_origin': self.origin.get(self.clients[-1]) if self.clients else None,
                     'events_tail': self.events[-12:]}
 
     def conn_closed(self, n, side):
         if n in self.open:
             self.open.discard(n)
+            self.open_by_dest[self.conn_dest.get(n)].discard(n)
             self.ev('close', n, side)
 
     def fault(self, key, kind):
         if key not in self.faulted:
             self.faulted[key] = kind
             self.cnt['fault:' + kind] += 1
+            return True
+        return False
 
     # ------------------------------------------------------------------ next-hop script + gates
     def creator(self, address):
+        owner = gevent.getcurrent()
         sock = self.ds.creator(address)
         n = len(self.ds.conns) - 1
-        self.conn_opened(n)
+        self.conn_opened(n, tuple(address) if self.mode == 'mx' else None, owner)
         return SockProxy(sock, lambda: self.conn_closed(n, 'client'))
 
     def gate(self, key, label):
@@ -500,17 +785,25 @@ class PoolLab(object):
         if act[0] == 'reply' and self.mode != 'http' and stage != 'idle':
             act = (act[0], act[1], 'scripted @%s' % stage)
         if act[0] != 'ok':
-            self.fault(key, act[0] if act[0] != 'reply' else 'reply@' + re.sub(r'\d+', '', stage))
+            fresh = self.fault(key, act[0] if act[0] != 'reply' else 'reply@' + re.sub(r'\d+', '', stage))
             self.ev('fault', conn, stage, act[0])
-        if 'late' in mix and self.mode != 'http' and stage not in ('connect', 'idle', 'noop', 'other'):
+            if fresh and act[0] in ('close', 'refuse', 'okclose') or (fresh and stage == 'idle'):
+                # the client on this connection is about to die / lose its connection at this stage
+                st = re.sub(r'\d+', '', stage)
+                self.cnt['death:' + st] += 1
+                if self.queued_total():
+                    self.cnt['death:%s-with-work-queued' % st] += 1
+                    self.cnt['client-death-with-work-queued'] += 1
+        lateeod = 'lateeod' in mix and stage.startswith('eod')      # the message is accepted, the reply is late
+        if ('late' in mix or lateeod) and self.mode != 'http' and stage not in ('connect', 'idle', 'noop', 'other'):
             # a reply later than the relay's command_timeout: after a failed transaction's RSET (the
             # followers are already queued), and now and then at any other stage
-            p = 0.6 if stage == 'rset' else 0.05
+            p = 0.35 if lateeod else 0.6 if stage == 'rset' else 0.05
             if U(s, 'l', key) < p and act[0] in ('ok', 'reply'):
                 st = re.sub(r'\d+', '', stage)
                 if ('late', key) not in self.faulted:
                     self.late_keys.add((conn, txn))
-                    if len(self.relay.queue):
+                    if self.queued_total():
                         self.cnt['late-%s-with-followers-queued' % st] += 1
                 self.fault(('late', key), 'late@' + st)
                 self.ev('fault', conn, stage, 'late')
@@ -518,6 +811,16 @@ class PoolLab(object):
                 # commands (poll + 10 ms server-timeout probe), but before the follower's own command
                 # timeout; 2.5x: after that as well
                 return ('delay', self.cmd_timeout * (1.5 if U(s, 'lf', key) < 0.7 else 2.5), act)
+        if 'stall' in mix and stage in ('quit', 'rset') and U(s, 'st', key) < 0.5:
+            # the next hop never answers this command and keeps the connection open: the client runs into its
+            # command timeout during RSET / QUIT and has to drop the connection itself
+            if self.fault(('stall', key), 'stall@' + stage):
+                self.cnt['death:%s-stalled' % stage] += 1
+                if self.queued_total():
+                    self.cnt['death:%s-stalled-with-work-queued' % stage] += 1
+                    self.cnt['client-death-with-work-queued'] += 1
+            self.ev('fault', conn, stage, 'stall')
+            return ('stall',)
         if 'slow' in mix and act[0] not in ('refuse',) and U(s, 's', key) < 0.3:
             self.fault(('slow', key), 'slow')
             act = ('delay', [0.002, 0.006, 0.013][int(U(s, 'd', key) * 3)], act)
@@ -527,13 +830,23 @@ class PoolLab(object):
 
     # ------------------------------------------------------------------ callers
     def _caller(self, c, delay=None):
+        c.entered = True
         try:
             if delay is not None:
                 # woken by its own timer, like a caller woken by I/O in the same loop iteration in
                 # which a client's idle timer expires (the caller runs attempt() before that timer fires)
                 gevent.sleep(delay)
                 self.ev('call', c.i)
-            c.result = self.relay.attempt(c.env, 0)
+            if c.give_up and c.give_up[0] == 'timeout':
+                # a caller that stops waiting after a while (its own Timeout around attempt())
+                try:
+                    with Timeout(c.give_up[1]):
+                        c.result = self.relay.attempt(c.env, c.attempts)
+                except Timeout:
+                    self._note_giveup(c, 'timeout')
+                    c.crash = 'gave-up-after-timeout'
+            else:
+                c.result = self.relay.attempt(c.env, c.attempts)
         except RelayError as e:
             c.error = e
         except BaseException as e:       # noqa
@@ -544,13 +857,50 @@ class PoolLab(object):
             c.done = True
             self.ev('done', c.i)
 
+    def _note_giveup(self, c, how):
+        """where was the request when its caller stopped waiting?"""
+        c.gave_up = True
+        if c.request is None:
+            where = 'before-enqueue'
+        elif c.request[0].ready():
+            where = 'result-already-set'
+        elif c.pool is not None and any(it[1] is c.env for it in c.pool.queue):
+            where = 'while-queued'
+        else:
+            where = 'in-flight'
+        c.gave_up_where = where
+        self.cnt['giveup:%s-%s' % (how, where)] += 1
+        self.cnt['caller-gave-up-' + where] += 1
+        self.ev('giveup', c.i)
+
+    def abandon(self, c):
+        """the harness kills a greenlet that waits in attempt() (what Queue.kill() / a pool shutdown does)."""
+        self._note_giveup(c, 'killed')
+        c.greenlet.kill(block=False)
+
     def start_caller(self, delay=None):
         i = len(self.callers)
         marker = 'm%d' % i
         sender = 'from%d@s.test' % i
-        rcpts = ['r%d.%d@d.test' % (i, j) for j in range(1 + int(U(self.seed, 'nr', i) * 3))]
+        dom = 'd.test'
+        if self.mode == 'mx':
+            dom = self.domains[int(U(self.seed, 'dom', i) * len(self.domains))]
+        rcpts = ['r%d.%d@%s' % (i, j, dom) for j in range(1 + int(U(self.seed, 'nr', i) * 3))]
         c = Caller(i, marker, sender, rcpts)
-        env = Envelope(sender, list(rcpts))
+        if self.mode == 'mx':
+            c.attempts = int(U(self.seed, 'att', i) * 3)
+        if self.p_giveup and U(self.seed, 'gu', i) < self.p_giveup:
+            if U(self.seed, 'guk', i) < 0.5:
+                c.give_up = ('kill',)
+            else:
+                c.give_up = ('timeout', GIVE_UP_AFTER[int(U(self.seed, 'gut', i) * len(GIVE_UP_AFTER))])
+        if 'badenv' in self.mix and U(self.seed, 'bad', i) < 0.25:
+            env = BadEnvelope(sender, list(rcpts))
+            env._marker = marker
+            c.bad_envelope = True
+            self.cnt['unserialisable-envelope'] += 1
+        else:
+            env = Envelope(sender, list(rcpts))
         env.parse(('X-Verif-Msg: %s\r\nSubject: c19 %d\r\n\r\nbody of %s\r\n' % (marker, i, marker)).encode())
         c.env = env
         self.by_env[id(env)] = c
@@ -559,12 +909,52 @@ class PoolLab(object):
         if delay is None:
             self.ev('call', i)
 
+    # ------------------------------------------------------------------ relay.kill() with attempts in flight
+    def in_flight(self):
+        out = []
+        for c in self.blocked():
+            if c.request is None or c.request[0].ready():
+                continue
+            h = self.holder.get(id(c.request[0]))
+            if h is not None and not h.dead:
+                out.append(c)
+        return out
+
+    def start_kill(self):
+        inflight = self.in_flight()
+        queued = self.queued_total()
+        self.kill = {'done': False, 'error': None, 'inflight': [c.marker for c in inflight], 'queued': queued,
+                     'clients': sum(len(p.pool) for p in self.pools),
+                     'victims': [cl for p in self.pools for cl in p.pool]}
+        self.cnt['kill:calls'] += 1
+        if inflight:
+            self.cnt['kill-with-attempts-in-flight'] += 1
+        if queued:
+            self.cnt['kill:with-requests-queued'] += 1
+        if self.kill['clients'] > 1:
+            self.cnt['kill:several-clients'] += 1
+        self.ev('kill', len(inflight), queued)
+        self.kill['greenlet'] = gevent.spawn(self._do_kill)
+
+    def _do_kill(self):
+        try:
+            self.relay.kill()
+        except gevent.GreenletExit:
+            self.kill['aborted'] = True
+        except BaseException as e:       # noqa
+            self.kill['error'] = e
+            self.kill['events_tail'] = self.events[-10:]
+        finally:
+            self.kill['done'] = True
+            self.ev('killed',)
+
     # ------------------------------------------------------------------ invariants at harness steps
     def check_invariant(self, where):
-        q = self.relay.queue
         self.cnt['deque-checks'] += 1
-        if q.sema.counter != len(q):
-            self.invariant_breaks.append({'where': where, 'counter': q.sema.counter, 'len': len(q)})
+        for p in self.pools:
+            q = p.queue
+            if q.sema.counter != len(q):
+                self.invariant_breaks.append({'where': where, 'counter': q.sema.counter, 'len': len(q)})
 
     def settle(self, rounds=2):
         for _ in range(rounds):
@@ -598,6 +988,11 @@ class PoolLab(object):
         t_end = time.time() + WATCHDOG / 2
         while (remaining or self.held or self.blocked()) and steps < 600 and time.time() < t_end:
             steps += 1
+            if self.kill_after is not None and self.kill is None and steps >= self.kill_after and \
+                    (self.in_flight() or steps >= self.kill_after + 6):
+                self.start_kill()
+                if rnd.random() < 0.5:
+                    gevent.sleep(0)
             if not remaining and not self.held:
                 # nothing left for the harness to decide: only wait -- unless what is left is stuck for good
                 self.settle()
@@ -610,6 +1005,11 @@ class PoolLab(object):
                 ch += ['burst'] * 3
             if self.held:
                 ch += ['release'] * (3 if not remaining else 2)
+            if self.p_giveup:
+                victims = [c for c in self.blocked() if c.give_up == ('kill',) and not c.gave_up
+                           and c.entered]
+                if victims:
+                    ch += ['abandon'] * 2
             op = rnd.choice(ch)
             trickle = self.case.get('arrival') == 'trickle'
             if op == 'burst' and trickle and self.blocked() and rnd.random() < 0.7:
@@ -638,6 +1038,8 @@ class PoolLab(object):
                 label, e = self.held.pop(rnd.randrange(len(self.held)))
                 self.ev('release', label[0], label[1])
                 e.set()
+            elif op == 'abandon':
+                self.abandon(rnd.choice(victims))
             elif op == 'nap':
                 gevent.sleep(rnd.choice(naps))
             else:
@@ -649,6 +1051,8 @@ class PoolLab(object):
             elif follow == 'settle':
                 self.settle()
             self.check_invariant('step')
+        if self.kill_after is not None and self.kill is None:
+            self.start_kill()
 
     def blocked(self):
         return [c for c in self.callers if not c.done]
@@ -657,14 +1061,14 @@ class PoolLab(object):
         """Definite (stable) stranding predicates; evaluated only when the loop is idle, no gate holds
         anything and no fault is scripted any more."""
         out = []
-        q = self.relay.queue
-        pool = self.relay.pool
         for c in self.blocked():
             if c.request is None:
                 continue
             res = c.request[0]
             if res.ready():
                 continue
+            q = c.pool.queue
+            pool = c.pool.pool
             in_queue = any(it[1] is c.env for it in q)
             h = self.holder.get(id(res))
             if in_queue:
@@ -672,9 +1076,16 @@ class PoolLab(object):
                     out.append((c, 'queued-but-no-client'))
                 elif all(getattr(cl, 'idle', False) and not cl.dead for cl in pool):
                     out.append((c, 'queued-while-every-client-sleeps-in-poll'))
+                elif all(cl.dead for cl in pool):
+                    # (the loop is idle: every link callback of a finished client has run)
+                    out.append((c, 'queued-while-only-finished-clients-occupy-the-pool'))
             elif h is None or h.dead:
                 out.append((c, 'request-in-nobodys-hands'))
         return out
+
+    def busy_clients(self):
+        """client greenlets that are neither finished nor sleeping in poll()"""
+        return [cl for cl in self.clients if not cl.dead and not getattr(cl, 'idle', False)]
 
     def _drain(self, t0):
         self.faults_on = False
@@ -686,7 +1097,7 @@ class PoolLab(object):
                 self.settle(1)
         grace = (self.idle or 0.0) * 2 + 0.03
         deadline = time.time() + WATCHDOG
-        outcome = {'watchdog': False, 'stranded': []}
+        outcome = {'watchdog': False, 'stranded': [], 'quiesce_watchdog': False}
         while True:
             self.settle()
             if not self.blocked():
@@ -705,17 +1116,49 @@ class PoolLab(object):
                 outcome['watchdog'] = True
                 break
             gevent.sleep(0.004)
+        # ---- quiescence of the pool itself: the kill() call has returned, no client is busy any more
+        # (abandoned requests may still be worked on after the last caller has left)
+        while not outcome['watchdog']:
+            self.settle()
+            if not self.busy_clients() and (self.kill is None or self.kill['done']):
+                break
+            if time.time() > deadline:
+                outcome['quiesce_watchdog'] = True
+                break
+            gevent.sleep(0.004)
         if self.idle:
             # let every idle timeout elapse, then look at the final state
             gevent.sleep(self.idle * 1.5 + 0.02)
             self.settle()
+            while not outcome['watchdog'] and not outcome['quiesce_watchdog']:
+                if not self.busy_clients():
+                    break
+                if time.time() > deadline:
+                    outcome['quiesce_watchdog'] = True
+                    break
+                gevent.sleep(0.004)
+                self.settle()
         outcome['open_left'] = len(self.open)
-        outcome['pool_left'] = len(self.relay.pool)
-        outcome['queue_left'] = len(self.relay.queue)
+        outcome['pool_left'] = sum(len(p.pool) for p in self.pools)
+        outcome['queue_left'] = self.queued_total()
+        # ---- the final state, pool by pool (all of it logical: no clock involved)
+        final = []
+        inpool = set()
+        for p in self.pools:
+            inpool.update(p.pool)
+            final.append({'dest': p._dest, 'queue_left': len(p.queue), 'pool': len(p.pool),
+                          'dead_in_pool': sum(1 for cl in p.pool if cl.dead),
+                          'sleeping': sum(1 for cl in p.pool if not cl.dead and getattr(cl, 'idle', False))})
+        outcome['final'] = final
+        outcome['live_outside_pool'] = sum(1 for cl in self.clients if not cl.dead and cl not in inpool)
+        outcome['leaked_sockets'] = sorted(n for n in self.open
+                                           if self.conn_owner.get(n) is not None and self.conn_owner[n].dead)
         self.check_invariant('final')
         return outcome
 
     def cleanup(self):
+        if self.kill is not None and not self.kill['done']:
+            self.kill['greenlet'].kill(block=False)
         for c in self.callers:
             if c.greenlet is not None and not c.greenlet.dead:
                 c.greenlet.kill(block=False)
@@ -731,6 +1174,8 @@ class PoolLab(object):
             for g in self.http.greenlets:
                 if not g.dead:
                     g.kill(block=False)
+        if _STUB.lab is self:
+            _STUB.lab = None
         gevent.sleep(0)
 
     # ------------------------------------------------------------------ helpers for the judge
@@ -756,6 +1201,7 @@ class PoolLab(object):
     def signature(self):
         sig = []
         for e in self.events:
-            if e[0] in ('open', 'close', 'txn', 'requeue', 'idle-expiry', 'respawn', 'call', 'done'):
+            if e[0] in ('open', 'close', 'txn', 'requeue', 'idle-expiry', 'respawn', 'call', 'done', 'kill', 'killed',
+                        'giveup', 'pool'):
                 sig.append(e[:2] if e[0] in ('open', 'close', 'txn') else e[:1])
         return tuple(sig)
